@@ -1,10 +1,13 @@
-import QuillModel.Pattern.Model
+import QuillModel.Pattern.Calls
 import QuillModel.Drivers.Util
 /-!
 Correspondence driver for C12. Input: the lines printed by `harness/h3_pattern.cpp`
 (`fmt …  => observation` from the real `PatternFormatter`, `be … => observation` from the real backend
 dispatch). Each observation is recomputed with `Pattern.formatPattern`, `Pattern.metaView`, `Pattern.dispatch`
 and `Pattern.applyRuntimeMeta` — the definitions the theorems of `Props/C12.lean` are about — and compared.
+A `fmt` line with a `pre=` field (the timestamps, with their reference time texts, of the calls the real formatter
+handled before the observed one) is recomputed with `Pattern.formatLast`: the instance model of `Pattern/Calls.lean`
+run over those calls (decoy values, as in the harness) and then the observed call.
 -/
 namespace Drv.Pattern
 open _root_.Pattern
@@ -72,6 +75,26 @@ def countSub (s : Str) (a b : Char) : Nat :=
   | x :: y :: r => (if x = a ∧ y = b then 1 else 0) + countSub (y :: r) a b
   | _ => 0
 
+/-- `-` | `N:xHEX,N:xHEX,…` : timestamps of the earlier calls with the reference's time text for each -/
+def preOf (t : String) : List (Nat × Str) :=
+  if t == "-" then []
+  else (t.splitOn ",").filterMap fun it =>
+    match it.splitOn ":" with
+    | [n, h] => (strOfHex h).map fun s => (Drv.nat! n, s)
+    | _ => none
+
+/-- the values the harness passes in the calls made before the observed one -/
+def decoyStmt : Stmt := {
+  time := [], threadId := "decoy-tid".toList, threadName := "decoy-thread-name".toList, processId := "decoy-pid".toList,
+  logger := "decoy-logger".toList, levelDesc := "DECOYLEVEL".toList, levelShort := "DL".toList,
+  src := "/decoy/dir/decoy_file.cc:9".toList, caller := "decoy_fn".toList, tags := some "decoy tags".toList,
+  named := some [("dk".toList, "dv".toList), ("dk2".toList, "dv2".toList)] }
+
+def decoyVals : Attr → Str :=
+  match metaView decoyStmt.src with
+  | some mv => valuation decoyStmt mv "decoy message that is longer than most of the real ones {} %(x)".toList
+  | none => fun _ => []
+
 /-- model observation for a `fmt` line -/
 def fmtObs (kv : List (String × String)) : String × Result :=
   let src := getS kv "src"
@@ -82,7 +105,16 @@ def fmtObs (kv : List (String × String)) : String × Result :=
       time := getS kv "time", threadId := getS kv "tid", threadName := getS kv "tname", processId := getS kv "pid",
       logger := getS kv "logger", levelDesc := getS kv "lvl", levelShort := getS kv "lvls", src := src,
       caller := getS kv "fn", tags := getOptS kv "tags", named := namedOf ((kv.lookup "na").getD "-") }
-    let r := formatPattern (getS kv "p") (valuation st mv (getS kv "msg"))
+    let vals := valuation st mv (getS kv "msg")
+    let r := match kv.lookup "pre" with
+      | none => formatPattern (getS kv "p") vals          -- older replay files: a single call
+      | some pre =>
+        let tsn := Drv.nat! ((kv.lookup "tsn").getD "0")
+        let earlier := preOf pre
+        -- `tf`: the time text of each timestamp that occurs, as the reference computed it
+        let tab := (tsn, st.time) :: earlier
+        let tf : Nat → Str := fun ts => ((tab.find? (·.1 == ts)).map (·.2)).getD []
+        formatLast (getS kv "p") tf (earlier.map fun e => ⟨e.1, decoyVals⟩) ⟨tsn, vals⟩
     (showResult r, r)
 
 /-- model observation for a `be` line -/
